@@ -57,7 +57,7 @@ theorem C05_encoded_bytes (x : List Nat) :
     rw [b64encode_length]
     have hnn : 0 ≤ Gen.encodedBytesB64 x.length := by
       unfold Gen.encodedBytesB64
-      rw [Int.fdiv_eq_ediv_of_nonneg _ (by decide)]
+      try simp only [Int.fdiv_eq_ediv_of_nonneg _ (show (0 : Int) ≤ 3 by decide)]
       omega
     omega
   · rfl
